@@ -160,8 +160,20 @@ func TestPropTwap(t *testing.T) {
 				cur := pl.GetCurrentTick() / 100
 				lo, hi = (cur-rapid.Int64Range(1, 500).Draw(rt, "below"))*100, (cur+rapid.Int64Range(1, 500).Draw(rt, "above"))*100
 			}
+			ethAmt, usdcAmt := rapid.Int64Range(1_000_000, 1_000_000_000_000).Draw(rt, "eth"), rapid.Int64Range(1_000_000, 1_000_000_000_000).Draw(rt, "usdc")
+			if !pl.GetLiquidity().IsPositive() && rapid.IntRange(0, 3).Draw(rt, "extremePrice") == 0 {
+				// a price beyond 1e12 (or below 1e-12) in one quote direction: that direction's spot price is outside the
+				// quotable band and errors while the other direction still quotes
+				small, large := rapid.Int64Range(1, 1000).Draw(rt, "smallSide"), rapid.Int64Range(1_000_000_000_000_000, 1_000_000_000_000_000_000).Draw(rt, "largeSide")
+				if rapid.Bool().Draw(rt, "extremeHigh") {
+					ethAmt, usdcAmt = small, large
+				} else {
+					ethAmt, usdcAmt = large, small
+				}
+				cs.Class("cl-first-position-at-extreme-price")
+			}
 			r := c.Exec(&cltypes.MsgCreatePosition{PoolId: clPool.id, Sender: chain.Actor(a).String(), LowerTick: lo, UpperTick: hi,
-				TokensProvided:  sdk.NewCoins(coin("eth", rapid.Int64Range(1_000_000, 1_000_000_000_000).Draw(rt, "eth")), coin("usdc", rapid.Int64Range(1_000_000, 1_000_000_000_000).Draw(rt, "usdc"))),
+				TokensProvided:  sdk.NewCoins(coin("eth", ethAmt), coin("usdc", usdcAmt)),
 				TokenMinAmount0: osmomath.ZeroInt(), TokenMinAmount1: osmomath.ZeroInt()})
 			// adding liquidity to a funded CL pool does not move its price and is not a price change for the twap module
 			if r.OK() && !pl.GetLiquidity().IsPositive() && pl.GetCurrentSqrtPrice().IsZero() {
